@@ -1,1 +1,246 @@
-//! value-semantics helpers for the sem engine (filled in later)
+//! Callback library and canonical values of the sem engine (JoinSem.tla).  Every
+//! primitive exists once in TLA+ (CB / ValOf) and once here; each invocation logs
+//! `{site, cb, arg}` into a thread-local call trace.
+use serde_json::{json, Value};
+use std::sync::Mutex;
+
+// global (not thread-local): callbacks of thread-spawning macros run on other threads
+static CALLS: Mutex<Vec<Value>> = Mutex::new(Vec::new());
+fn calls() -> std::sync::MutexGuard<'static, Vec<Value>> {
+    CALLS.lock().unwrap_or_else(|e| e.into_inner())
+}
+pub fn reset() {
+    calls().clear();
+}
+pub fn take_calls() -> Vec<Value> {
+    std::mem::take(&mut *calls())
+}
+fn call(site: u32, cb: &str, arg: Value) {
+    calls().push(json!({"site": site, "cb": cb, "arg": arg}));
+}
+
+/// canonical value: `{"t": tag, "v": payload}` exactly as JoinSem builds values
+pub trait Canon {
+    fn canon(&self) -> Value;
+}
+impl Canon for i64 {
+    fn canon(&self) -> Value {
+        json!({"t":"i","v":self})
+    }
+}
+impl Canon for usize {
+    fn canon(&self) -> Value {
+        json!({"t":"i","v":self})
+    }
+}
+impl Canon for bool {
+    fn canon(&self) -> Value {
+        json!({"t":"b","v":self})
+    }
+}
+impl Canon for () {
+    fn canon(&self) -> Value {
+        json!({"t":"unit","v":0})
+    }
+}
+impl<T: Canon> Canon for Option<T> {
+    fn canon(&self) -> Value {
+        match self {
+            Some(x) => json!({"t":"some","v":x.canon()}),
+            None => json!({"t":"none","v":0}),
+        }
+    }
+}
+impl<T: Canon, E: Canon> Canon for Result<T, E> {
+    fn canon(&self) -> Value {
+        match self {
+            Ok(x) => json!({"t":"ok","v":x.canon()}),
+            Err(e) => json!({"t":"err","v":e.canon()}),
+        }
+    }
+}
+impl<T: Canon> Canon for Vec<T> {
+    fn canon(&self) -> Value {
+        json!({"t":"seq","v":self.iter().map(|x| x.canon()).collect::<Vec<_>>()})
+    }
+}
+impl<A: Canon, B: Canon> Canon for (A, B) {
+    fn canon(&self) -> Value {
+        json!({"t":"pair","v":[self.0.canon(), self.1.canon()]})
+    }
+}
+impl<T: Canon> Canon for &T {
+    fn canon(&self) -> Value {
+        (*self).canon()
+    }
+}
+pub fn canon<T: Canon>(x: &T) -> Value {
+    x.canon()
+}
+/// consume an iterator and canonicalise what it yields (its callbacks run now)
+pub fn drain<I: Iterator>(it: I) -> Value
+where
+    I::Item: Canon,
+{
+    let v: Vec<Value> = it.map(|x| x.canon()).collect();
+    json!({"t":"seq","v":v})
+}
+fn iter_tag() -> Value {
+    json!({"t":"iter","v":0})
+}
+
+// ---- primitives (names as in JoinSem.CB) -----------------------------------
+pub fn inc(site: u32, x: i64) -> i64 {
+    call(site, "inc", x.canon());
+    x + 1
+}
+pub fn dbl(site: u32, x: i64) -> i64 {
+    call(site, "dbl", x.canon());
+    x * 2
+}
+pub fn half(site: u32, x: i64) -> Option<i64> {
+    call(site, "half", x.canon());
+    if x % 2 == 0 {
+        Some(x / 2)
+    } else {
+        None
+    }
+}
+pub fn chk(site: u32, x: i64) -> Result<i64, i64> {
+    call(site, "chk", x.canon());
+    if x < 3 {
+        Ok(x)
+    } else {
+        Err(x)
+    }
+}
+pub fn is_even(site: u32, x: &i64) -> bool {
+    call(site, "isEven", x.canon());
+    *x % 2 == 0
+}
+pub fn is_some(site: u32, x: &Option<i64>) -> bool {
+    call(site, "isSome", x.canon());
+    x.is_some()
+}
+pub fn mk9(site: u32) -> Option<i64> {
+    call(site, "mk9", ().canon());
+    Some(9)
+}
+pub fn rec(site: u32, e: i64) -> Result<i64, i64> {
+    call(site, "rec", e.canon());
+    Ok(e + 1)
+}
+pub fn refail(site: u32, e: i64) -> Result<i64, i64> {
+    call(site, "refail", e.canon());
+    Err(e + 1)
+}
+pub fn e10(site: u32, e: i64) -> i64 {
+    call(site, "e10", e.canon());
+    e + 10
+}
+pub fn psum(site: u32, a: i64, b: i64) -> i64 {
+    call(site, "psum", (a, b).canon());
+    a + b
+}
+pub fn esum(site: u32, a: usize, b: i64) -> i64 {
+    call(site, "psum", (a, b).canon());
+    a as i64 + b
+}
+pub fn add_acc(site: u32, acc: i64, x: i64) -> i64 {
+    call(site, "addAcc", (acc, x).canon());
+    acc + x
+}
+pub fn try_acc(site: u32, acc: i64, x: i64) -> Option<i64> {
+    call(site, "tryAcc", (acc, x).canon());
+    if x < 3 {
+        Some(acc + x)
+    } else {
+        None
+    }
+}
+pub fn nop<T: Canon>(site: u32, x: &T) {
+    call(site, "nop", x.canon());
+}
+/// `??` on an iterator in a sync macro: the callback sees the iterator itself by reference
+pub fn nop_iter<T>(site: u32, _x: &T) {
+    call(site, "nop", iter_tag());
+}
+pub fn idt<T: Canon>(site: u32, x: T) -> T {
+    call(site, "idt", x.canon());
+    x
+}
+pub fn idt_iter<T>(site: u32, x: T) -> T {
+    call(site, "idt", iter_tag());
+    x
+}
+pub fn wrap_some(site: u32, x: i64) -> Option<i64> {
+    call(site, "wrapSome", x.canon());
+    Some(x)
+}
+// by-value operands
+pub fn alt9() -> Option<i64> {
+    Some(9)
+}
+pub fn alt_none() -> Option<i64> {
+    None
+}
+pub fn alt_ok9() -> Result<i64, i64> {
+    Ok(9)
+}
+pub fn alt_err7() -> Result<i64, i64> {
+    Err(7)
+}
+pub fn iter2() -> std::vec::IntoIter<i64> {
+    vec![7i64, 8, 9, 10, 11].into_iter()
+}
+/// operand shape "call": a call expression whose value is the callback
+pub fn ret<F>(f: F) -> F {
+    f
+}
+/// operand shape "macro": a macro invocation whose value is the callback
+#[macro_export]
+macro_rules! clos {
+    ($e:expr) => {
+        $e
+    };
+}
+
+/// main loop of generated sem binaries: table of (name, number of inputs, macro fn, twin fn)
+pub fn main_loop(table: &[(&str, usize, fn(usize) -> Value, fn(usize) -> Value)]) {
+    use std::io::Write;
+    crate::quiet_panics();
+    let args: Vec<String> = std::env::args().collect();
+    let mut out = std::io::BufWriter::new(std::fs::File::create(&args[1]).expect("out"));
+    for (name, n, m, t) in table {
+        for k in 0..*n {
+            reset();
+            let mv = std::panic::catch_unwind(|| m(k));
+            let mcalls = take_calls();
+            reset();
+            let tv = std::panic::catch_unwind(|| t(k));
+            let tcalls = take_calls();
+            let mvj = mv.unwrap_or_else(|e| json!({"t":"panic","v":crate::panic_message(&*e)}));
+            let tvj = tv.unwrap_or_else(|e| json!({"t":"panic","v":crate::panic_message(&*e)}));
+            writeln!(out, "{}", json!({"id": name, "k": k, "mv": mvj, "mcalls": mcalls, "tv": tvj, "tcalls": tcalls})).unwrap();
+        }
+    }
+    out.flush().unwrap();
+}
+
+/// `..count_i()` / `..len_i()`: count and len as i64 (the chain's scalar type)
+pub trait Ext {
+    fn count_i(self) -> i64;
+}
+impl<I: Iterator> Ext for I {
+    fn count_i(self) -> i64 {
+        self.count() as i64
+    }
+}
+pub trait VecExt {
+    fn len_i(&self) -> i64;
+}
+impl<T> VecExt for Vec<T> {
+    fn len_i(&self) -> i64 {
+        self.len() as i64
+    }
+}
